@@ -66,6 +66,12 @@ def initial_tables(size):
         out.append([(GROUPS[1], 1)] + [(0, 0)] * (size - 1))
         out.append([(0, 0)] * (size - 1) + [(GROUPS[0], 2)])
         out.append([(GROUPS[2], 0)] + [(GROUPS[0], 1)] + [(0, 0)] * (size - 2))   # stale id with endpoint 0
+    # any non-zero endpoint byte means "in use", also the values above the application range (240, 241 reserved,
+    # 242 Green Power, 255)
+    out.append([(GROUPS[0], 242)] + [(0, 0)] * (size - 1))
+    if size >= 2:
+        out.append([(GROUPS[1], 255), (GROUPS[2], 240)] + [(0, 0)] * (size - 2))
+        out.append([(GROUPS[i % 3], (241, 254, 128)[i % 3]) for i in range(min(size, 3))] + [(0, 0)] * max(0, size - 3))
     return out
 
 
